@@ -113,9 +113,11 @@ package oauth2
 
 // ---------------------------------------------------------------- C01 / C02: authorization-code redemption
 
+// The code handler and the PKCE handler must claim exactly the same requests: a request only one of them handles
+// would be redeemed without the verifier check (C03).
 //@ func (*AuthorizeExplicitGrantHandler).CanHandleTokenEndpointRequest
 //@   pure
-//@   ensures result == requester.GetGrantTypes().ExactOne("authorization_code")
+//@   ensures [C03.same-dispatch-as-pkce-handler] result == requester.GetGrantTypes().ExactOne("authorization_code")
 
 //@ func (*AuthorizeExplicitGrantHandler).HandleTokenEndpointRequest
 //@   modifies anyheap
@@ -426,6 +428,7 @@ package oauth2
 //@   requires c != nil && ar != nil && resp != nil && ar.GetSession() != nil && ar.GetClient() != nil
 //@   modifies code_exists, code_active, code_rid, code_client, code_req, stored, faults, tx_escaped, ar.GetSession().GetExpiresAt(fosite.AuthorizeCode), ar.GetRequestForm(), mapof(resp.GetParameters()), resp.GetCode(), ar.DidHandleAllResponseTypes()
 //@   ensures [C13.code-params] forall k string :: (k in resp.GetParameters()) ==> (old(k in resp.GetParameters()) || k == "code" || k == "state" || k == "scope")
+//@   assert @call(CreateAuthorizeCodeSession)#1 [C02.stored-code-keeps-redirect-uri] len(c.Config.GetSanitationWhiteList(ctx)) == 0 ==> formget($arg3.GetRequestForm(), "redirect_uri") == old(formget(ar.GetRequestForm(), "redirect_uri"))
 
 //@ func (*AuthorizeExplicitGrantHandler).HandleAuthorizeEndpointRequest
 //@   let inv = tokparams(resp.GetParameters()) ==> (ar.GetDefaultResponseMode() == fosite.ResponseModeFragment && !ar.GetResponseTypes().ExactOne("code"))
@@ -437,6 +440,8 @@ package oauth2
 //@ func (*AuthorizeExplicitGrantHandler).GetSanitationWhiteList
 //@   requires c != nil
 //@   ensures len(result) > 0
+//@   ensures [C02.stored-code-keeps-redirect-uri] len(c.Config.GetSanitationWhiteList(ctx)) == 0 ==> insl(result, "redirect_uri") && insl(result, "code")
+//@   ensures [C02.stored-code-keeps-redirect-uri] len(c.Config.GetSanitationWhiteList(ctx)) > 0 ==> result == c.Config.GetSanitationWhiteList(ctx)
 //@ func (*AuthorizeExplicitGrantHandler).secureChecker
 //@   requires c != nil
 //@   ensures result != nil
